@@ -1,6 +1,7 @@
 package templater
 
 import (
+	"fmt"
 	"maps"
 	"path/filepath"
 	"runtime"
@@ -41,7 +42,13 @@ func init() {
 			}
 			return ""
 		},
-		"shellQuote": func(str string) (string, error) {
+		"shellQuote": func(v any) (string, error) {
+			// Any value, written the way the template engine prints it: a
+			// number or a boolean is as good an argument as a string.
+			str := ""
+			if v != nil {
+				str = fmt.Sprint(v)
+			}
 			return syntax.Quote(str, syntax.LangBash)
 		},
 		"splitArgs": func(s string) ([]string, error) {
